@@ -19,7 +19,7 @@ EXPLANATION = (
     "the shapes of state.setter/_next_state/_change_state/next_state_indirect the model assumes are checked; R3 the "
     "three uncommandable targets raise before any controlword store; R4 mode tables mutually consistent and equal to "
     "CiA 402, support check dominates both 0x6060 stores and its TypeError is not swallowed; R5 the controlword "
-    "setter hands every assigned value to the drive (PDO store + transmit when not periodic, else SDO) on every path; R7 the pointer tables (rpdo_pointers, tpdo_pointers/tpdo_values) are filled from enabled PDO maps only -- a disabled RPDO that maps 0x6040 must not capture the controlword (the drive ignores its COB-ID and the SDO fallback is lost); the filter may sit at the registration, in the iterated comprehension, or in a generator helper; R6 structural assumptions shared by all properties: no class-level mutable object is mutated in place by instances, no method re-runs the constructor, logging statements cannot raise (typed eager formatting, divisions), no mutable default argument is kept or mutated, no new truth-value test of a None-able number."
+    "setter hands every assigned value to the drive (PDO store + transmit when not periodic, else SDO) on every path; R7 the pointer tables (rpdo_pointers, tpdo_pointers/tpdo_values) are filled from enabled PDO maps only -- a disabled RPDO that maps 0x6040 must not capture the controlword (the drive ignores its COB-ID and the SDO fallback is lost); the filter may sit at the registration, in the iterated comprehension, or in a generator helper; R6 structural assumptions shared by all properties: no class-level mutable object is mutated in place by instances, no method re-runs the constructor, logging statements cannot raise (typed eager formatting, divisions), no mutable default argument is kept or mutated, no new truth-value test of a None-able number, a look-up memory the pinned tree does not have is keyed by all its inputs (arithmetic keys folded over a grid of addresses) and, on the serving side, emptied somewhere."
     ' R4 decides the supported-mode test by evaluation over all modes and six masks.'
 )
 ASSUMPTIONS = [
